@@ -1143,7 +1143,7 @@ func init() {
 	register(&property{
 		Meta: propertyMeta{
 			ID:          "C11",
-			Explanation: "(C11-SAME) provenance: on the writer side route.path is stored, on every path and before the route is inserted anywhere, as the result of (*Router).formatPath on the router itself applied to prefix + path as a whole, and the group prefix only grows by formatPath results (C12-EXTEND); on the reader side every path argument of the matcher is a formatPath result of the same function on the same router (through parameters of unexported functions whose every call site passes one) — so both sides see the same strictLastSlash bit. (C11-TOTAL) E-IDX proves every index and slice expression of formatPath, simpleFmtPath, match, QuickMatch and findAllowedMethods in bounds from dominating guards, including formatPath's post-condition 'non-empty and starts with /' that discharges path[1:] and path[1:pos+1] in match via a pre-condition checked at every call site. (C11-ENC) the dispatcher feeds Req.URL.Path, or Req.URL.EscapedPath() exactly when UseEncodedPath is set. (C11-PRENORM) in every string->string module function that lies between a route constructor's path parameter and the store into Route.path, each returned value is a constant or flows from strings.TrimSpace/Trim/TrimFunc of the parameter and not from the raw parameter around it.",
+			Explanation: "(C11-SAME) provenance: on the writer side route.path is stored, on every path and before the route is inserted anywhere, as the result of (*Router).formatPath on the router itself applied to prefix + path as a whole, and the group prefix only grows by formatPath results (C12-EXTEND); on the reader side every path argument of the matcher is a formatPath result of the same function on the same router (through parameters of unexported functions whose every call site passes one) — so both sides see the same strictLastSlash bit. (C11-TOTAL) E-IDX proves every index and slice expression of formatPath, simpleFmtPath, match, QuickMatch and findAllowedMethods in bounds from dominating guards, including formatPath's post-condition 'non-empty and starts with /' that discharges path[1:] and path[1:pos+1] in match via a pre-condition checked at every call site. (C11-ENC) the dispatcher feeds Req.URL.Path, or Req.URL.EscapedPath() exactly when UseEncodedPath is set. (C11-PRENORM) in every string->string module function that lies between a route constructor's path parameter and the store into Route.path, each returned value is a constant or flows from strings.TrimSpace/Trim/TrimFunc of the parameter and not from the raw parameter around it. (C11-TRAIL) formatPath (with the helpers it calls) removes trailing slashes by strings.TrimRight/Trim over a constant cut set containing '/', TrimRightFunc/TrimFunc, or by a re-slice / TrimSuffix inside a loop.",
 			NotDecided:  []string{"which strings normalise to the same key; idempotence of formatPath (string-valued run-time facts)"},
 			Assumptions: []string{"strings.IndexByte returns -1 or an index < len (library contract)"},
 		},
